@@ -1,10 +1,11 @@
 import SageoptModel.Drv.GF2
+import SageoptModel.Drv.Solvers
 open Lean
 
 namespace Sageopt.Drv
 
 def allHandlers : List (String × Handler) :=
-  GF2.handlers
+  GF2.handlers ++ Solvers.handlers
 
 def dispatch (line : String) : String :=
   match Json.parse line with
